@@ -119,7 +119,65 @@ def extract():
     t.update(extract_ast())
     t.update(extract_cli_behaviour())
     t.update(extract_regex_behaviour())
+    t.update(extract_random_behaviour())
     return t
+
+
+def extract_random_behaviour():
+    """Which functions of the `random` module evaluation calls, and with what shape of arguments, obtained by EXECUTING a
+    fixed corpus of queries in deterministic and in nondeterministic mode with every public callable of the module
+    replaced by a recorder (constructors of generator objects included): deterministic mode must not touch `random`
+    at all; nondeterministic mode calls exactly shuffle(list), choice([True, False]) and sample(population, len(population))
+    — the three the choice-script model covers, through the module-level names the scripted chooser replaces."""
+    try:
+        import random
+
+        import jsonpath_rfc9535 as jp
+
+        names = [n for n in dir(random) if not n.startswith("_") and callable(getattr(random, n))]
+        saved = {n: getattr(random, n) for n in names}
+        queries = ["$.*", "$..*", "$[?@]", "$..[?@.a]", "$.a[*]", "$..a", "$[?@..b]", "$[*]..[*]", "$[?count(@.*) > 0]", "$['a','b']", "$[0:2]", "$..[0]"]
+        docs = [{"a": [1, {"b": 2, "c": [3]}], "d": {"e": 1, "f": {"g": 0, "b": 5}}, "h": 7}, [[1, [2]], {"a": {"a": 1, "b": 2}}, "s"], {"a": 1, "b": 2, "c": 3}, [1, 2, 3], 5]
+        rows = []
+        try:
+            for mode, nd in (("deterministic", False), ("nondeterministic", True)):
+                seen = set()
+
+                def make(n):
+                    def rec(*a, **kw):
+                        shape = n
+                        if n == "choice":
+                            shape += ":" + repr(list(a[0])) if a else ":?"
+                        elif n == "sample":
+                            pop = list(a[0]) if a else []
+                            k = a[1] if len(a) > 1 else kw.get("k")
+                            shape += ":k=len(population)" if k == len(pop) else ":k=other"
+                        elif n == "shuffle":
+                            shape += ":" + type(a[0]).__name__ if a else ":?"
+                        seen.add(shape)
+                        return saved[n](*a, **kw)
+                    return rec
+
+                for n in names:
+                    setattr(random, n, make(n))
+                env = type("TieEnv", (jp.JSONPathEnvironment,), {"nondeterministic": nd})()
+                for q in queries:
+                    for d in docs:
+                        try:
+                            env.find(q, d)
+                        except jp.JSONPathError:
+                            pass
+                for n in names:
+                    setattr(random, n, saved[n])
+                rows += [(mode, "random." + sh, 1) for sh in sorted(seen)]
+        finally:
+            for n, f in saved.items():
+                setattr(random, n, f)
+        return {"randomCalls": rows}
+    except TieABroken:
+        raise
+    except Exception as err:  # noqa: BLE001
+        raise TieABroken(f"random behaviour extraction failed: {err!r}") from err
 
 
 def extract_regex_behaviour():
@@ -326,13 +384,9 @@ def extract_ast():
                 tr = ast.parse(open(os.path.join(root, f), encoding="utf8").read())
                 _scan(tr, rel, [], writes, randoms)
         t["writes"] = sorted(set(writes))
-        # call sites into `random` per file and function of the random module (not per enclosing function: private
-        # helpers may be renamed or split without changing what the nondeterministic model has to cover)
-        counts = {}
-        for scope, fn in randoms:
-            key = (scope.split(":")[0], fn)
-            counts[key] = counts.get(key, 0) + 1
-        t["randomCalls"] = sorted((a, b, n) for (a, b), n in counts.items())
+        # (the use of `random` is no longer read off the syntax — counting call sites per file broke, with no failing
+        # input to show, when a behaviour-preserving refactoring merged two shuffles into one helper — but EXECUTED:
+        # extract_random_behaviour)
     except TieABroken:
         raise
     except Exception as err:  # noqa: BLE001
@@ -342,6 +396,58 @@ def extract_ast():
 
 MUTATORS = ("append", "extend", "pop", "popleft", "clear", "update", "setdefault", "insert",
             "remove", "sort", "reverse", "add", "discard", "appendleft", "popitem")
+
+
+def _local_fresh(node):
+    fresh = set()
+    params = {a.arg for a in node.args.args + node.args.kwonlyargs + node.args.posonlyargs}
+    for sub in ast.walk(node):
+        if isinstance(sub, (ast.Assign, ast.AnnAssign)):
+            val = sub.value
+            tgts = sub.targets if isinstance(sub, ast.Assign) else [sub.target]
+            is_fresh = isinstance(val, (ast.List, ast.Dict, ast.Set, ast.ListComp, ast.DictComp, ast.SetComp)) or (
+                isinstance(val, ast.Call) and _name(val.func) in ("list", "dict", "set", "deque", "collections.deque")
+            )
+            for t in tgts:
+                if isinstance(t, ast.Name):
+                    (fresh.add if is_fresh else fresh.discard)(t.id) if is_fresh or t.id not in fresh else None
+    return fresh - params
+
+
+def _fresh_params(tree):
+    """For every private (single-underscore) function or method of a module: the parameters that receive, at EVERY call
+    site in that module, a name the caller bound to a freshly built container (or such a parameter of the caller's own)
+    — extracting a loop over a local stack or queue into a helper does not make the container outlive the call.
+    Greatest fixed point; a helper that is never called in its module gets nothing."""
+    funcs = {}
+    for n in ast.walk(tree):
+        if isinstance(n, (ast.FunctionDef, ast.AsyncFunctionDef)) and n.name.startswith("_") and not n.name.startswith("__"):
+            ps = [a.arg for a in n.args.posonlyargs + n.args.args]
+            if ps and ps[0] in ("self", "cls"):
+                ps = ps[1:]
+            funcs[n.name] = ps
+    result = {name: set(ps) for name, ps in funcs.items()}
+    called = set()
+    for _ in range(4):
+        for fn in ast.walk(tree):
+            if not isinstance(fn, (ast.FunctionDef, ast.AsyncFunctionDef)):
+                continue
+            fresh = _local_fresh(fn) | result.get(fn.name, set())
+            for c in ast.walk(fn):
+                if not isinstance(c, ast.Call):
+                    continue
+                nm = c.func.attr if isinstance(c.func, ast.Attribute) else (c.func.id if isinstance(c.func, ast.Name) else None)
+                if nm not in funcs:
+                    continue
+                called.add(nm)
+                ps = funcs[nm]
+                for i, a in enumerate(c.args):
+                    if i < len(ps) and not (isinstance(a, ast.Name) and a.id in fresh):
+                        result[nm].discard(ps[i])
+                for kw in c.keywords:
+                    if kw.arg in result[nm] and not (isinstance(kw.value, ast.Name) and kw.value.id in fresh):
+                        result[nm].discard(kw.arg)
+    return {name: (ps if name in called else set()) for name, ps in result.items()}
 
 
 class _Scanner(ast.NodeVisitor):
@@ -355,6 +461,11 @@ class _Scanner(ast.NodeVisitor):
         self.writes = writes
         self.randoms = randoms
         self.fresh_stack = []
+        self.fresh_params = {}
+
+    def visit_Module(self, node):
+        self.fresh_params = _fresh_params(node)
+        self.generic_visit(node)
 
     def _qual(self):
         return self.rel + ":" + ".".join(self.scope)
@@ -364,20 +475,9 @@ class _Scanner(ast.NodeVisitor):
 
     def visit_FunctionDef(self, node):
         self.scope.append(node.name)
-        # names bound in this function to a freshly built container: mutating them is local to the call
-        fresh = set()
-        params = {a.arg for a in node.args.args + node.args.kwonlyargs + node.args.posonlyargs}
-        for sub in ast.walk(node):
-            if isinstance(sub, (ast.Assign, ast.AnnAssign)):
-                val = sub.value
-                tgts = sub.targets if isinstance(sub, ast.Assign) else [sub.target]
-                is_fresh = isinstance(val, (ast.List, ast.Dict, ast.Set, ast.ListComp, ast.DictComp, ast.SetComp)) or (
-                    isinstance(val, ast.Call) and _name(val.func) in ("list", "dict", "set", "deque", "collections.deque")
-                )
-                for t in tgts:
-                    if isinstance(t, ast.Name):
-                        (fresh.add if is_fresh else fresh.discard)(t.id) if is_fresh or t.id not in fresh else None
-        self.fresh_stack.append(fresh - params)
+        # names bound in this function to a freshly built container: mutating them is local to the call; so is mutating
+        # a parameter of a PRIVATE helper every call site of which (in this module) hands it such a fresh local
+        self.fresh_stack.append(_local_fresh(node) | self.fresh_params.get(node.name, set()))
         self.generic_visit(node)
         self.fresh_stack.pop()
         self.scope.pop()
